@@ -6,7 +6,11 @@
 // Retry-After: 0 | N | garbage), 500, 503, connection reset, config-store failure}, each with its
 // own DropNonRetryableData flag (the writer re-reads the configuration on every attempt). The
 // batch is written the way the queue does it: again with attempt+1 after every failure, until the
-// writer reports success or the script ends.
+// writer reports success or the script ends. In a part of the cases the script ends with the
+// replication being CLOSED (the writer's done channel, what replicationQueue.Close does) either
+// just before the attempt starts or while the request is in flight at a remote that has received
+// it completely and does not answer: the remote never accepted the batch, so Write must come back
+// with an error (a nil error lets the queue discard the batch).
 // Oracle (documented rules, computed independently): 204 => (0,nil); 400 with drop enabled =>
 // (0,nil) and the bytes counted as dropped; 429 with a positive integer Retry-After => that many
 // seconds; Retry-After "0" => backoff(1); everything else => backoff(attempts) =
@@ -39,7 +43,7 @@ import (
 const propID = "C27"
 
 var rec = ev.For(propID, "fault_enumeration",
-	"queue cases: one generated history (segment size, enqueue/send/drain/reopen ops, per-offer remote decisions); non-trivial = >=3 batches and a batch that is not the last one failed at least once and was accepted later; writer cases: (batch, start attempt, scripted answers); non-trivial = at least one failed attempt followed by an accepted/dropped one; distinct by canonical rendering of the case")
+	"queue cases: one generated history (segment size, enqueue/send/drain/reopen ops, per-offer remote decisions); non-trivial = >=3 batches and a batch that is not the last one failed at least once and was accepted later; close-while-sending cases (enqueued batches, how many the remote accepts before the replication is closed, when it is closed, batches enqueued afterwards): non-trivial = at least one batch accepted before the close and at least two left unaccepted; writer cases: (batch, start attempt, scripted answers); non-trivial = at least one failed attempt followed by an accepted/dropped one; distinct by canonical rendering of the case")
 
 var replID = platform.ID(0x27)
 
@@ -63,6 +67,8 @@ type expectation struct {
 	Wait       time.Duration // documented delay before the next attempt
 	WaitKnown  bool          // false: the documentation does not fix the delay for this answer
 	NoRequest  bool          // the attempt cannot reach the remote (config store failure)
+	Aborted    bool          // the replication is closed before/while the attempt runs; the remote never answers
+	NeedSeen   bool          // ... and the close happens only after the remote has the complete request
 	MayBeLost  bool          // transport-level failure: the remote may not see a complete request
 	RemoteOKed bool          // the remote itself acknowledged the batch (204)
 }
@@ -76,6 +82,10 @@ func expect(resp response, attempts int) expectation {
 	case "reset":
 		e.MayBeLost = true
 		return e
+	case "abort":
+		// not accepted, hence an error; the documentation does not say what delay a write that was
+		// cut short by closing the replication has to ask for (nobody is left to wait for it)
+		return expectation{Aborted: true, MayBeLost: resp.AbortWhen != "inflight", NeedSeen: resp.AbortWhen == "inflight"}
 	}
 	switch {
 	case resp.Status == http.StatusNoContent:
@@ -177,6 +187,8 @@ func respClass(r response) string {
 			return s + "+drop"
 		}
 		return s
+	case "abort":
+		return "closed-" + r.AbortWhen
 	}
 	return r.Kind
 }
@@ -211,6 +223,10 @@ func checkRequests(reqs []seenReq, data []byte, e expectation) string {
 		return fmt.Sprintf("one attempt produced %d requests at the remote, want exactly 1", len(reqs))
 	}
 	q := reqs[0]
+	if e.Aborted && !e.NeedSeen && q.Err != nil {
+		// closed before the attempt started: whatever part of the request got out may be cut short
+		return ""
+	}
 	if q.Err != nil {
 		return fmt.Sprintf("remote failed to read the request body: %v", q.Err)
 	}
@@ -248,6 +264,64 @@ func counterValue(c prometheus.Counter) float64 {
 	return m.GetCounter().GetValue()
 }
 
+// ---- a real writer and the done channel of "its" replication queue ---------------------------
+
+type rwriter interface {
+	Write(data []byte, attempt int) (time.Duration, error)
+}
+
+type liveWriter struct {
+	w       rwriter
+	done    chan struct{}
+	closed  bool
+	stalled string // non-empty: the machine (not the writer) spoiled an aborted attempt
+}
+
+func newLiveWriter(store remotewrite.HttpConfigStore, m *metrics.ReplicationsMetrics) *liveWriter {
+	l := &liveWriter{done: make(chan struct{})}
+	l.w = remotewrite.NewWriter(replID, store, m, zap.NewNop(), l.done)
+	return l
+}
+
+// close is what replicationQueue.Close does to the writer: it closes the done channel.
+func (l *liveWriter) close() {
+	if !l.closed {
+		l.closed = true
+		close(l.done)
+	}
+}
+
+// abortedWrite performs one Write against a remote that takes the request and never answers,
+// and closes the replication either before the call (resp.AbortWhen "before", or when it is
+// closed already) or as soon as the remote has received the complete request ("inflight").
+// It returns once the remote side is quiet again, with the requests the remote saw.
+func (l *liveWriter) abortedWrite(resp response, data []byte, attempt int, mem bool) (time.Duration, error, []seenReq) {
+	remote.arm(resp)
+	fin := make(chan struct{})
+	if l.closed || resp.AbortWhen != "inflight" {
+		l.close()
+		close(fin)
+	} else {
+		seen := remote.seenCh()
+		go func() {
+			defer close(fin)
+			select {
+			case <-seen:
+			case <-time.After(10 * time.Second):
+				l.stalled = "the remote did not receive the request within 10s"
+			}
+			close(l.done)
+		}()
+	}
+	wait, err := l.w.Write(data, attempt)
+	<-fin
+	l.closed = true
+	if mem && !memL.quiesce(5*time.Second) {
+		l.stalled = "in-memory remote still busy 5s after the aborted write returned"
+	}
+	return wait, err, remote.take()
+}
+
 // ---- property -----------------------------------------------------------------------------
 
 type writerStep struct {
@@ -282,27 +356,49 @@ func runWriterProp(t *testing.T, name string, tcp bool, quick, thorough int) {
 		for i := 0; i < n; i++ {
 			c.Script = append(c.Script, genResponse(t, fmt.Sprintf("r%d", i), true))
 		}
+		// the replication is closed during (or right before) one of the attempts: the script ends there
+		abortKinds := []string{"", "", "", "", "", "inflight", "inflight", "before"}
+		if tcp {
+			// over loop-back TCP a request cut short can reach the handler after the attempt is over
+			abortKinds = []string{"", "", "", "", "", "inflight", "inflight"}
+		}
+		if when := rapid.SampledFrom(abortKinds).Draw(t, "closed"); when != "" {
+			k := rapid.IntRange(0, n-1).Draw(t, "closed_at")
+			c.Script = append(c.Script[:k:k], response{Kind: "abort", AbortWhen: when})
+		}
 
 		m := metrics.NewReplicationsMetrics()
 		sent := m.RemoteWriteBytesSent.WithLabelValues(replID.String())
 		dropped := m.RemoteWriteBytesDropped.WithLabelValues(replID.String())
-		done := make(chan struct{})
-		defer close(done)
-		w := remotewrite.NewWriter(replID, store, m, zap.NewNop(), done)
+		lw := newLiveWriter(store, m)
+		defer lw.close()
+		w := lw.w
 
 		fail := func(key, detail string) {
 			rec.Fail(t, name, key, detail, c)
 		}
 
 		attempt := c.StartAttempt
-		failures, finished := 0, false
+		failures, finished, closedDuring := 0, false, false
 		for _, resp := range c.Script {
 			e := expect(resp, attempt)
 			store.set(resp)
-			remote.arm(resp)
 			sent0, dropped0 := counterValue(sent), counterValue(dropped)
-			wait, err := w.Write(data, attempt)
-			reqs := remote.take()
+			var wait time.Duration
+			var err error
+			var reqs []seenReq
+			if resp.Kind == "abort" {
+				wait, err, reqs = lw.abortedWrite(resp, data, attempt, !tcp)
+				if lw.stalled != "" {
+					rec.Inconclusive(name + ": " + lw.stalled)
+					t.Skip("stalled")
+				}
+				closedDuring = true
+			} else {
+				remote.arm(resp)
+				wait, err = w.Write(data, attempt)
+				reqs = remote.take()
+			}
 			rec.Eval()
 			rec.Class("writer:resp:" + respClass(resp))
 			rec.Class("writer:attempt:" + attemptClass(attempt))
@@ -323,6 +419,9 @@ func runWriterProp(t *testing.T, name string, tcp bool, quick, thorough int) {
 			if e.Accepted != (err == nil) {
 				if e.Accepted {
 					fail("accepted-answer-reported-as-failure", fmt.Sprintf("remote answered %s (attempt %d): the batch is accepted/dropped by the documented rules but Write returned error %v", respClass(resp), attempt, err))
+				}
+				if e.Aborted {
+					fail("failure-reported-as-success", fmt.Sprintf("the replication was closed (done channel) %s the write at attempt %d and the remote never answered: not accepted, yet Write returned a nil error (the queue would discard the batch)", map[bool]string{true: "while the remote held the complete request of", false: "right before"}[e.NeedSeen], attempt))
 				}
 				fail("failure-reported-as-success", fmt.Sprintf("remote answered %s (attempt %d, drop=%v): not accepted, yet Write returned a nil error (the queue would discard the batch)", respClass(resp), attempt, resp.Drop))
 			}
@@ -355,6 +454,9 @@ func runWriterProp(t *testing.T, name string, tcp bool, quick, thorough int) {
 			rec.Class("writer:case:accepted-first-try")
 		default:
 			rec.Class("writer:case:never-accepted")
+		}
+		if closedDuring {
+			rec.Class("writer:case:replication-closed-during-attempt")
 		}
 		if rec.WantSample() && finished && failures > 1 {
 			rec.Sample(c)
